@@ -783,16 +783,18 @@ static void gen_expr(Node *node) {
 
       // If the lhs is a bitfield, we need to read the current value
       // from memory and merge it with a new value.
+      // The mask can be as wide as 64 bits, so it goes through a register.
       Member *mem = node->lhs->member;
+      unsigned long mask = ~0UL >> (64 - mem->bit_width);
       println("  mov %%rax, %%rdi");
-      println("  and $%ld, %%rdi", (1L << mem->bit_width) - 1);
+      println("  mov $%ld, %%r9", mask);
+      println("  and %%r9, %%rdi");
       println("  shl $%d, %%rdi", mem->bit_offset);
 
       println("  mov (%%rsp), %%rax");
       load(mem->ty);
 
-      long mask = ((1L << mem->bit_width) - 1) << mem->bit_offset;
-      println("  mov $%ld, %%r9", ~mask);
+      println("  mov $%ld, %%r9", ~(mask << mem->bit_offset));
       println("  and %%r9, %%rax");
       println("  or %%rdi, %%rax");
       store(node->ty);
